@@ -21,24 +21,25 @@ def Ty.isStruct (t : Ty) : Bool :=
   | .struct _ => true
   | _ => false
 
-mutual
-  /-- `typeName`. -/
-  def typeName : Ty → String
-    | .bool => "bool" | .i8 => "int8" | .i16 => "int16" | .i32 => "int32" | .i64 => "int64"
-    | .double => "float64" | .string => "string" | .binary => "[]byte"
-    | .map k v =>
-      if k.isPrim then "map[" ++ typeReference k ++ "]" ++ typeReference v
-      else "[]struct{Key " ++ typeReference k ++ "; Value " ++ typeReference v ++ "}"
-    | .list e => "[]" ++ typeReference e
-    | .set e => if e.isPrim then "map[" ++ typeReference e ++ "]struct{}" else "[]" ++ typeReference e
-    | .sset e => "[]" ++ typeReference e
-    | .enum n => n
-    | .struct n => n
-    | .typedef n _ => n
-  /-- `typeReference`: the name, with `*` for struct-rooted types. -/
-  def typeReference : Ty → String
-    | t => if t.isStruct then "*" ++ typeName t else typeName t
-end
+/-- `*` prefix rule of `typeReference`. -/
+def refOf (t : Ty) (name : String) : String := if t.isStruct then "*" ++ name else name
+
+/-- `typeName` (its recursive calls go through `typeReference` = `refOf t (typeName t)`). -/
+def typeName : Ty → String
+  | .bool => "bool" | .i8 => "int8" | .i16 => "int16" | .i32 => "int32" | .i64 => "int64"
+  | .double => "float64" | .string => "string" | .binary => "[]byte"
+  | .map k v =>
+    if k.isPrim then "map[" ++ refOf k (typeName k) ++ "]" ++ refOf v (typeName v)
+    else "[]struct{Key " ++ refOf k (typeName k) ++ "; Value " ++ refOf v (typeName v) ++ "}"
+  | .list e => "[]" ++ refOf e (typeName e)
+  | .set e => if e.isPrim then "map[" ++ refOf e (typeName e) ++ "]" ++ "struct{}" else "[]" ++ refOf e (typeName e)
+  | .sset e => "[]" ++ refOf e (typeName e)
+  | .enum n => n
+  | .struct n => n
+  | .typedef n _ => n
+
+/-- `typeReference`: the name, with `*` for struct-rooted types. -/
+def typeReference (t : Ty) : String := refOf t (typeName t)
 
 /-- `typeReferencePtr`: `*` for everything that is not already a reference type. -/
 def typeReferencePtr (t : Ty) : String :=
